@@ -1,3 +1,4 @@
 import Drv.Basic
 import Drv.Exec
 import Drv.Gen
+import Drv.Judge
